@@ -4,8 +4,11 @@
    rejection is a theorem), every signed mode. *)
 From Coq Require Import List Arith Permutation ZArith.
 From Coq Require Import Sorted.
+(* C02's model (read-only; used by C01_mode_dot_is_fold_matmul_unfold only) is imported FIRST so that C01's own names win *)
+From TLV Require Import Model.Tenalg.
 From TLV Require Import Base.Shape Base.PyList Base.Tensor Model.Base Model.BaseExt Model.BasePy Model.BasePyCore
-  Proofs.BaseProofs Proofs.BaseProofs2 Proofs.BaseProofs3 Proofs.BaseProofs4 Proofs.BaseProofs5 Proofs.BaseProofs6 Proofs.BaseProofs7 Proofs.BaseProofs8 Proofs.BaseProofs9 Proofs.BaseProofs10 Proofs.BaseProofs11 Proofs.BaseProofs12 Proofs.BaseProofs13 Proofs.BaseProofs14 Proofs.BaseProofs15 Proofs.BaseProofs16 Proofs.BaseProofs17 Proofs.BaseProofs18.
+  Proofs.BaseProofs Proofs.BaseProofs2 Proofs.BaseProofs3 Proofs.BaseProofs4 Proofs.BaseProofs5 Proofs.BaseProofs6 Proofs.BaseProofs7 Proofs.BaseProofs8 Proofs.BaseProofs9 Proofs.BaseProofs10 Proofs.BaseProofs11 Proofs.BaseProofs12 Proofs.BaseProofs13 Proofs.BaseProofs14 Proofs.BaseProofs15 Proofs.BaseProofs16 Proofs.BaseProofs17 Proofs.BaseProofs18 Proofs.BaseProofs19 Proofs.BaseProofs20
+  Model.BasePyNp.
 Import ListNotations.
 
 Theorem C01_fold_unfold : forall (A : Type) (d : A) (t : tensor A) (m : nat),
@@ -634,3 +637,84 @@ Example C01_nonvacuous_typed :
   g_moveaxis_generic (typed 0 nat) a 0 5 = Ok (mkarr 5 (mk [3;2] [0;3;1;4;2;5])) /\
   g_moveaxis_generic (typed 0 nat) a 2 0 = Err.
 Proof. cbv zeta. unfold wf. cbn [arr shape data]. repeat split; vm_compute; reflexivity. Qed.
+
+(* ---------- THE LAYOUT CONVENTION PINNED BY A CONSUMER (read-only import of C02's Model/Tenalg.v: matmul, bsum, mode_dot).
+   core_tenalg.mode_dot computes fold(dot(M, unfold(T, mode)), mode, new_shape).  Made of the statement-level g_unfold / g_fold on
+   the NumPy backend, for EVERY signed mode z in range (k its normalisation) and every ring-like carrier: the composition
+   succeeds, is the very tensor C02's mode_dot returns, and its entries are the n-mode product
+   R[.., j, ..] = sum_i M[j, i] * T[.., i, ..] - true only because the columns unfold writes are the columns fold reads. *)
+Theorem C01_mode_dot_is_fold_matmul_unfold : forall (F : Type) (Op : rops F) (T M : tensor F) (z : Z) (k a b : nat),
+  wf T -> wf M -> norm_axis (ndim T) z = Some k -> 0 < prod (shape T) ->
+  shape M = [a; b] -> b = nth k (shape T) 0 -> 0 < a ->
+  exists U R,
+    g_unfold (plain (r0 Op)) T z = Ok U /\
+    g_fold (plain (r0 Op)) (matmul Op M U) z (map Z.of_nat (set_nth k a (shape T))) = Ok R /\
+    mode_dot Op T M k false = Ok R /\
+    wf R /\ shape R = set_nth k a (shape T) /\
+    forall idx, inb (shape R) idx ->
+      get (r0 Op) R idx = bsum Op (nth k (shape T) 0) (fun i => rmul Op (get (r0 Op) M [nth k idx 0; i]) (get (r0 Op) T (set_nth k i idx))).
+Proof. exact @mode_dot_is_fold_matmul_unfold. Qed.
+Print Assumptions C01_mode_dot_is_fold_matmul_unfold.
+
+Example C01_mode_dot_nonvacuous :
+  let T := mk [2; 3; 2] (map Z.of_nat (seq 0 12)) in
+  let M := mk [2; 3] [1; 0; 2; 0; 1; 1]%Z in
+  norm_axis (ndim T) (-2)%Z = Some 1 /\ wf T /\ wf M /\ 0 < prod (shape T) /\
+  rbind (g_unfold (plain (r0 ZR)) T (-2)%Z) (fun U => g_fold (plain (r0 ZR)) (matmul ZR M U) (-2)%Z [2; 2; 2]%Z)
+    = Ok (mk [2; 2; 2] [8; 11; 6; 8; 26; 29; 18; 20]%Z).
+Proof. exact mode_dot_is_fold_matmul_unfold_nonvacuous. Qed.
+
+(* ---------- THE BACKEND CALLS AS THE NUMPY BACKEND RESOLVES THEM (Model/BasePyNp.v; numpy_backend.py registers numpy's own
+   reshape / moveaxis / transpose / shape - the harness records on every run that they ARE numpy's function objects).
+   tl.reshape with an int: succeeds iff the int is negative (the inferred dimension) or the number of entries, and is then
+   tensor_to_vec; tl.transpose with axes=None: never rejected, reverses the axes, entry formula, an involution. *)
+Theorem C01_np_reshape_int_ok_iff : forall (A : Type) (d : A) (t : tensor A) (z : Z),
+  (exists u, np_reshape d t (SInt z) = Ok u) <-> (z < 0 \/ z = Z.of_nat (prod (shape t)))%Z.
+Proof. exact @np_reshape_int_ok_iff. Qed.
+Print Assumptions C01_np_reshape_int_ok_iff.
+
+Theorem C01_np_reshape_int_is_vec : forall (A : Type) (d : A) (t : tensor A),
+  np_reshape d t (SInt (-1)%Z) = g_tensor_to_vec (plain d) t /\
+  np_reshape d t (SInt (Z.of_nat (prod (shape t)))) = tensor_to_vec t /\
+  (forall l, np_reshape d t (SSeq l) = g_vec_to_tensor (plain d) t l).
+Proof. intros A d t. exact (conj (np_reshape_int_minus_one d t) (conj (np_reshape_int_size d t) (np_reshape_seq_is_vec_to_tensor d t))). Qed.
+Print Assumptions C01_np_reshape_int_is_vec.
+
+Theorem C01_np_transpose_none : forall (A : Type) (d : A) (t : tensor A),
+  np_transpose_opt d t None = Ok (transpose d (rev (seq 0 (ndim t))) t).
+Proof. exact @np_transpose_none. Qed.
+Print Assumptions C01_np_transpose_none.
+
+Theorem C01_np_transpose_none_layout : forall (A : Type) (d : A) (t u : tensor A) (idx : list nat),
+  wf t -> np_transpose_opt d t None = Ok u -> inb (shape t) idx ->
+  shape u = rev (shape t) /\ get d u (rev idx) = get d t idx.
+Proof. exact @np_transpose_none_layout. Qed.
+Print Assumptions C01_np_transpose_none_layout.
+
+Theorem C01_np_transpose_none_involution : forall (A : Type) (d : A) (t : tensor A), wf t ->
+  rbind (np_transpose_opt d t None) (fun u => np_transpose_opt d u None) = Ok t.
+Proof. exact @np_transpose_none_involution. Qed.
+Print Assumptions C01_np_transpose_none_involution.
+
+Example C01_np_nonvacuous :
+  let t := mk [2; 3] (seq 0 6) in
+  wf t /\ np_transpose_opt 0 t None = Ok (mk [3; 2] [0; 3; 1; 4; 2; 5]) /\
+  np_reshape 0 t (SInt 6%Z) = Ok (mk [6] (seq 0 6)) /\ np_reshape 0 t (SInt 5%Z) = Err /\
+  np_reshape 0 t (SInt (-3)%Z) = Ok (mk [6] (seq 0 6)) /\ np_shape 0 t = [2%Z; 3%Z] /\ np_ndim 0 t = 2%Z.
+Proof. cbv zeta. unfold wf. cbn [shape data]. repeat split; vm_compute; reflexivity. Qed.
+
+(* the two list comprehensions of partial_unfold are slices of the shape on the documented ranges (every backend): the lemma
+   behind the refactoring  new_shape = list(tensor.shape[:skip_begin]) + new_shape / new_shape += list(tensor.shape[-skip_end:]),
+   which the ast translator accepts (py_slice); outside these ranges (negative or too large skips) the two differ *)
+Theorem C01_shape_comprehensions_are_slices : forall (T : Type) (B : backend T) (t : T) (sb se : nat),
+  (sb <= length (b_shape B t) ->
+   rmapM (fun i => py_getitem (py_shape B t) i) (py_range1 (Z.of_nat sb)) = Ok (py_slice (py_shape B t) None (Some (Z.of_nat sb)))) /\
+  (0 < se <= length (b_shape B t) ->
+   rmapM (fun i => py_getitem (py_shape B t) (- i)%Z) (py_range3 (Z.of_nat se) 0%Z (-1)%Z) = Ok (py_slice (py_shape B t) (Some (- Z.of_nat se)%Z) None)).
+Proof. exact @shape_comprehensions_are_slices. Qed.
+Print Assumptions C01_shape_comprehensions_are_slices.
+
+Example C01_slices_nonvacuous :
+  py_slice [2; 3; 4; 5]%Z None (Some 2%Z) = [2; 3]%Z /\ py_slice [2; 3; 4; 5]%Z (Some (-1)%Z) None = [5]%Z /\
+  py_slice [2; 3; 4; 5]%Z None (Some (-1)%Z) = [2; 3; 4]%Z /\ py_slice [2; 3; 4; 5]%Z (Some 7%Z) None = [].
+Proof. repeat split. Qed.
